@@ -235,15 +235,29 @@ def run_tlc(module, cfg_body, tag, workers=8, timeout=1800, env=None, collect_pr
                 r.ok = True
             if simulate and ("Simulation" in line or "simulation" in line):
                 pass
-            m = re.match(r"^<(\w+) line .* of module (\w+)>: (\d+):(\d+)", line)
+            m = re.match(r"^<(\w+) line \d+, col \d+ to line \d+, col \d+ of module (\w+)(?: \([^)]*\))?>: (\d+):(\d+)", line)
             if m:
-                r.coverage[m.group(1)] = (int(m.group(3)), int(m.group(4)))
+                a = r.coverage.get(m.group(1), (0, 0))
+                r.coverage[m.group(1)] = (a[0] + int(m.group(3)), a[1] + int(m.group(4)))
     if errors:
         r.violation = "; ".join(errors[:5])
     if p.returncode not in (0,) and not errors and not r.ok:
         tail = subprocess.run(["tail", "-30", out_file], stdout=subprocess.PIPE, text=True).stdout
         raise ToolError("TLC failed rc=%d on %s (%s):\n%s" % (p.returncode, module, tag, tail))
     return r
+
+
+def action_coverage(module, cfg_body, tag, ignore=()):
+    """run the design model once more at small constants with `-coverage 1`; every action of the
+    next-state relation must have been taken, otherwise the check would be vacuous (tool error)"""
+    r = run_tlc(module, cfg_body, tag, workers=4, timeout=1800, collect_prints=False, coverage=True, out_name="coverage.out")
+    if r.violation or not r.ok:
+        raise ToolError("coverage run of %s failed: %s (%s)" % (module, r.violation, r.out_file))
+    acts = {k: list(v) for k, v in r.coverage.items() if k not in ignore}
+    never = sorted(k for k, v in acts.items() if v[1] == 0)
+    if never or not acts:
+        raise ToolError("vacuous model run of %s: action(s) never taken: %s" % (module, never))
+    return acts
 
 
 def tlc_json_lines(path):
